@@ -86,6 +86,9 @@ def composite_pieces():
                       rules=[R('for (const auto &p : dict_) {', 'for (unsigned p__k = 0; p__k < dict_.size(); p__k++) { umap_pair p = dict_.at(p__k);', n=1,
                                why="range-for over the unordered term dictionary -> index loop over the stub (iteration order is an arbitrary permutation), body verbatim")] + CTOK))
     comp.append(Piece('symengine/add.cpp', r'bool Add::__eq__\(const Basic &o\) const', rules=CTOK))
+    comp.append(Piece('symengine/add.cpp', r'int Add::compare\(const Basic &o\) const',
+                      rules=[R('map_basic_num adict(dict_.begin(), dict_.end());', 'map_basic_basic adict; sorted_map(dict_, adict);', n=1, why="std::map range constructor -> its assumed contract (pairs sorted by the real RCPBasicKeyLess)"),
+                             R('map_basic_num bdict(s.dict_.begin(), s.dict_.end());', 'map_basic_basic bdict; sorted_map(s.dict_, bdict);', n=1)] + CTOK))
     comp.append(Piece('symengine/mul.cpp', r'hash_t Mul::__hash__\(\) const',
                       rules=[R('for (const auto &p : dict_) {', 'for (mapit p__i = dict_.begin(); p__i != dict_.end(); ++p__i) { umap_pair p = *p__i;', n=1,
                                why="range-for over the ordered factor dictionary -> iterator loop over the stub, body verbatim")] + CTOK))
@@ -141,9 +144,11 @@ def composite_unit(prop, Unit, Entry):
     ents = []
     for cls, nm in ((1, 'Pow'), (2, 'Interval'), (3, 'TwoArgBasic'), (4, 'OneArgFunction'), (5, 'Add'), (6, 'Complement'), (7, 'Contains'), (10, 'Mul')):
         h = 'h_comp_c01' if prop == 'C01' else 'h_comp_c02'
-        if prop == 'C02' and cls == 5:
-            continue
         d = {'CLS': cls, 'CLSNAME': '"%s"' % nm}
+        if prop == 'C02' and cls == 5:
+            ents.append(Entry(h, defines=d, route='B', timeout=900, mem_gb=6, unwind=8, label="%s_%s" % (h, nm),
+                              bounds="at most 2 terms in the dictionary (either iteration order); any children (6 abstract objects, any sharing, hash collisions allowed)"))
+            continue
         if cls == 10:
             # same 64-bit mixing problem as Add for C01 (five chained hash_combine calls per object): 16-bit hash_t; C02 does not hash
             if prop == 'C01':
